@@ -260,9 +260,18 @@ struct ThrEngine : Engine {
         std::vector<uint64_t> seq(K, 0), con(K, 0);
         // one-time initialisations (function-local statics, OpenSSL/libpcap lazy setup) must not depend on the history of the
         // process: the first execution in any process (worker, minimiser child, replay) first runs every op of the plan once, unmonitored
-        { static bool warmed = false; if (!warmed) { warmed = true; arena::init(); mon::tl_logical = arena::LIFETIME; for (int t = 0; t < K; ++t) { ThreadState ts; uint64_t h = 0; for (auto& k : ops[t]) h = run_op(k, ts, h); }
-            const char* sets[3] = { "ccmp_packets", "tkip_packets", "ccmp_qos_packets" }; for (int i = 0; i < 3; ++i) { ThreadState ts; KV k; k.set("op", "wpa2").set("set", sets[i]); run_op(k, ts, 0); }
-            { ThreadState ts; KV k; k.set("op", "frag").set("pl", Bytes(64, 1)).set("mtu", 16).set("id", 1).set("ord", 0); run_op(k, ts, 0); KV d; d.set("op", "dns").set("id", 1).set("n", 2); run_op(d, ts, 0); KV a; a.set("op", "addr").setu("v", 12345); run_op(a, ts, 0); KV b; b.set("op", "build").setu("v", 777); run_op(b, ts, 0); KV w; w.set("op", "wep").set("bad", 0); run_op(w, ts, 0); } mon::tl_logical = -1; } }
+        // one-time initialisations (lazy set-up inside OpenSSL/libpcap/libstdc++, function-local statics) must not depend on the
+        // history of the process: every process (worker, minimiser child, replay) first runs a FIXED generic warm-up of every op
+        // kind, unmonitored, owned by the lifetime arena. It deliberately does not use the plan's own values, so that a cache or
+        // registry keyed by input values is still populated by the threads of the run (and seen by the monitor).
+        { static bool warmed = false; if (!warmed) { warmed = true; arena::init(); mon::tl_logical = arena::LIFETIME; Rng wr(424242); ThreadState ts;
+            const int dl[7] = { gen::DLT_EN10MB_, gen::DLT_RAW_, gen::DLT_IEEE802_11_, gen::DLT_IEEE802_11_RADIO_, gen::DLT_LINUX_SLL_, gen::DLT_NULL_, gen::DLT_PPI_ };
+            for (int i = 0; i < 7; ++i) for (int j = 0; j < 40; ++j) { gen::Frame f = gen::frame_for(wr, dl[i]); KV k; k.set("op", "parse").set("dlt", dl[i]).set("f", f.bytes); run_op(k, ts, 0); }
+            const char* sets[3] = { "ccmp_packets", "tkip_packets", "ccmp_qos_packets" }; for (int i = 0; i < 3; ++i) { KV k; k.set("op", "wpa2").set("set", sets[i]); run_op(k, ts, 0); }
+            { KV k; k.set("op", "frag").set("pl", Bytes(64, 1)).set("mtu", 16).set("id", 1).set("ord", 0); run_op(k, ts, 0); KV d; d.set("op", "dns").set("id", 1).set("n", 2); run_op(d, ts, 0); KV a; a.set("op", "addr").setu("v", 12345); run_op(a, ts, 0); KV b; b.set("op", "build").setu("v", 777); run_op(b, ts, 0); KV w; w.set("op", "wep").set("bad", 0); run_op(w, ts, 0);
+              KV p; p.set("op", "pmk").set("psk", "warmup-pass").set("ssid", "warmup-net"); run_op(p, ts, 0);
+              TcpSeg sg; sg.sport = 1; sg.dport = 2; sg.seq = 5; sg.flags = TH_SYN; KV fo; fo.set("op", "follow").set("t", 1).set("f", tcp_frame(sg, Addr::v4(1, 1, 1, 1), Addr::v4(2, 2, 2, 2), Mac::of(1), Mac::of(2))); run_op(fo, ts, 0); }
+            ts = ThreadState(); mon::tl_logical = -1; } }
         sched::on_thread_start = mon::note_stack; mon::note_stack(); mon::reset(); arena::reset(); memset(unsafe::callers, 0, sizeof unsafe::callers);
         auto sequential = [&]() { for (int t = 0; t < K; ++t) { ThreadState ts; uint64_t h = 0xC18; mon::tl_logical = t; mon::on = true; for (auto& k : ops[t]) h = run_op(k, ts, h); mon::on = false; mon::tl_logical = -1; seq[t] = h; } };
         auto concurrent = [&]() {
